@@ -109,11 +109,11 @@ def run(ctx):
         for b in fams.get(fam, []):
             behs.append(b)
             families.append(fam)
-    for b in directed_histories():
+    for b in directed_histories() + H.directed_common():
         behs.append(b)
         families.append("directed")
     H.common_cov(ctx, behs)
-    ctx.cov["directed_histories"] = len(directed_histories())
+    ctx.cov["directed_histories"] = len(directed_histories()) + 1
     # one driver run and one TLC validation for all families; family "jump" (no "epoch shorter than a month"
     # assumption) only changes the signature suffix of what is found in it
     rows = H.hunt(ctx, "Trace_LavaChain_C37.cfg", behs, "hist", _sig, _what, families=families)
